@@ -3,6 +3,7 @@ package props
 import (
 	"fmt"
 	"reflect"
+	"sync"
 	"time"
 
 	"github.com/tormoder/fit"
@@ -16,11 +17,36 @@ import (
 // zone offsets (seconds) for local timestamps paired with a UTC reference: not only whole hours / minutes
 var genLocalOffsets = []int{0, 1, -1, 29, 30, 31, 59, 61, -59, 3599, 3601, 12307, -12307, 45296, 86399, -86399, 86400, 90001}
 
+// instants around the 2021 transitions of Europe/Oslo (01:00 UTC on 28 March and 31 October)
+var genDSTInstants = []int64{1616882400, 1616891400, 1616895000, 1635640200, 1635643800}
+
+var dstZoneOnce sync.Once
+var dstZone *time.Location
+
+// genDSTZone: a zone with daylight saving from the system's zone database (nil if the database is not installed).
+func genDSTZone() *time.Location {
+	dstZoneOnce.Do(func() {
+		if l, err := time.LoadLocation("Europe/Oslo"); err == nil {
+			dstZone = l
+		}
+	})
+	return dstZone
+}
+
 func genValue(fv reflect.Value, e fit.VerifField, vi int, salt int) bool {
 	bs := fitmodel.BaseSize(e.Base)
 	switch e.Kind {
 	case kindUTC, kindLocal:
 		secs := []int64{1, 1000000000 + int64(salt), 0xFFFFFFFE, 0x10000000, 0x7FFFFFFF, 0x80000000}
+		if e.Kind == kindLocal && vi >= 200 && !e.Array {
+			// value 200+i: an instant around a daylight-saving transition, in a real (shared) *time.Location
+			loc := genDSTZone()
+			if loc == nil || vi-200 >= len(genDSTInstants) {
+				return false
+			}
+			fv.Set(reflect.ValueOf(time.Unix(genDSTInstants[vi-200], 0).In(loc)))
+			return true
+		}
 		if e.Kind == kindLocal && vi >= 100 && !e.Array {
 			// value 100+i: the instant of timestamp value#1 seen in a zone that is genLocalOffsets[i] away from UTC
 			if vi-100 >= len(genLocalOffsets) {
@@ -387,6 +413,23 @@ func genSpecs(gs genSlot, thorough bool) []genSpec {
 				order := [][]int{{2, 0, 1}, {0, 2, 1}}
 				if e.Array {
 					order = [][]int{{1, 0, 2}, {0, 1, 2}}
+				} else {
+					// strings: every ordered triple of {one letter, multi-byte runes, full length, CJK} - a scratch
+					// buffer that is reused without clearing shows as soon as a shorter string follows a longer one
+					order = nil
+					for a := 0; a < 4; a++ {
+						for b := 0; b < 4; b++ {
+							for c := 0; c < 4; c++ {
+								probe := fit.VerifNewMesg(fit.MesgNum(gs.Mesg))
+								if a == 3 || b == 3 || c == 3 {
+									if !genValue(probe.Field(e.Sindex), e, 3, 0) {
+										continue
+									}
+								}
+								order = append(order, []int{a, b, c})
+							}
+						}
+					}
 				}
 				for _, o := range order {
 					add(fmt.Sprintf("field %d with lengths in order %v", e.Num, o), [][]genFieldSet{{{e.Slot, o[0]}}, {{e.Slot, o[1]}}, {{e.Slot, o[2]}}}, thorough)
